@@ -191,6 +191,10 @@ def gen_file_tree(rng):
 
     def op():
         opn[0] += 1
+        if rng.random() < 0.15:
+            # the line also carries a debugging op whose string has a bad escape: a warning of the *lexer* of whichever
+            # file the line stands in (seed C16h dropped the lexer warnings of included files)
+            return ("op", "SET(R%d, %d)" % (rng.randrange(1, 11), opn[0]), "w")
         return ("op", "SET(R%d, %d)" % (rng.randrange(1, 11), opn[0]))
     for idx, k in enumerate(keys):
         items = [op() for _ in range(rng.choice([0, 1, 2]))]
@@ -225,7 +229,10 @@ def write_tree(root, files):
         os.makedirs(os.path.dirname(p), exist_ok=True)
         with open(p, "w") as f:
             for it in items:
-                f.write(it[1] + "\n" if it[0] == "op" else '#include "%s"\n' % it[1])
+                if it[0] == "op":
+                    f.write(it[1] + (' print("\\q")' if len(it) == 3 else "") + "\n")
+                else:
+                    f.write('#include "%s"\n' % it[1])
 
 
 def splice(files, key, stack=()):
@@ -243,6 +250,18 @@ def splice(files, key, stack=()):
             ops += o
             errs += e
     return ops, errs
+
+
+def splice_warnings(files, key, stack=()):
+    """Expected lexer warnings [(file, line)] of the spliced program, in order."""
+    out = []
+    for ln, it in enumerate(files[key], start=1):
+        if it[0] == "op":
+            if len(it) == 3:
+                out.append((key, ln))
+        elif it[2] is not None and it[2] not in stack + (key,):
+            out += splice_warnings(files, it[2], stack + (key,))
+    return out
 
 
 INCLUDE_HEADER = """From Coq Require Import ZArith List Bool.
@@ -313,7 +332,11 @@ def include_oracle(rng):
             return "include processing did not terminate", stats, files
         except BaseException as e:  # noqa
             return "include processing raised %s: %s" % (type(e).__name__, e), stats, files
-        got_ops = [str(o).replace(" ", "") for o in ops]
+        got_ops = [str(o).replace(" ", "") for o in ops if type(o).__name__ != "PRINT"]
+        shift = 3 if stats.get("wrapped") else 0
+        want_warns = [(k, ln + (shift if k == main else 0)) for k, ln in splice_warnings(files, main)]
+        got_warns = [(os.path.relpath(loc.path, root) if loc is not None and loc.path else None, loc.line if loc is not None else None)
+                     for m, loc in msgs.warnings if "backslash" in m]
         got_errs = []
         for m, loc in msgs.errors:
             kind = "recursive" if "recursive include" in m else "missing" if ("file" in m and "not" in m) or "does not exist" in m else "other:" + m
@@ -323,6 +346,8 @@ def include_oracle(rng):
             return "included text is not spliced in place: operations %r, expected %r" % (got_ops, want_ops), stats, files
         if sorted(got_errs) != sorted(want_errs):
             return "include diagnostics %r, expected %r (kind, file the #include stands in)" % (got_errs, want_errs), stats, files
+        if sorted(got_warns) != sorted(want_warns):
+            return "warnings of the spliced text %r, expected %r (file, line of each bad escape)" % (got_warns, want_warns), stats, files
     finally:
         shutil.rmtree(root, ignore_errors=True)
     return None, stats, files
@@ -390,11 +415,16 @@ def repetition_probes(rng, n):
     return out
 
 
+# symbols defined through one another, in a ring, then used where a size or a value is needed (seed C07g: a constant
+# was resolved by following names until a number turned up)
+RING_TEXTS = ["CONSTANT(A, A)\nDSKIP(A)\n", "CONSTANT(A, B)\nCONSTANT(B, A)\nDSKIP(B)\nSET(R1, A)\n", "CONSTANT(A, B)\nCONSTANT(B, C)\nCONSTANT(C, A)\nDSKIP(C)\nINTEGER(A)\n", "CONSTANT(A, A)\nSET(R1, A)\nINC(R1, A)\nLABEL(A)\n", "DLABEL(D)\nDSKIP(D)\nCONSTANT(K, D)\nDSKIP(K)\n", "CONSTANT(K, L)\nLABEL(L)\nDSKIP(K)\n", "DSKIP(Q)\nCONSTANT(Q, Q)\nDSKIP(Q)\n"]
+
+
 def survival_texts(rng, n):
     import lexcases as lc
     import progcases as pc
     names = all_op_names()
-    out = repetition_probes(rng, max(12, n // 25))
+    out = repetition_probes(rng, max(12, n // 25)) + list(RING_TEXTS)
     for k in range(n):
         r = rng.random()
         if r < 0.25:
@@ -473,6 +503,12 @@ FAULTS = [
     ('{}print("abc)', '"abc)', "operand", "unclosed", []),
     ("{}SET(R1, 017)", "017", "operand", "octal", []),
     ("{}INC(R1, 65)", "65", "operand", "range", []),
+    # a negative operand whose sign stands apart from its digits: the report may stand on the sign or on the digits,
+    # never on the blanks or the comment between them (seed C17h moved the column one to the left of the digits)
+    ("{}SETLO(R1, -300)", "-300", "operand", "range", []),
+    ("{}SETLO(R1, - 300)", "- 300", "operand", "range", []),
+    ("{}SETLO(R1, -\t300)", "-\t300", "operand", "range", []),
+    ("{}SETLO(R1, -  /* c */ 300)", "-  /* c */ 300", "operand", "range", []),
     ("{}BRR(toofar)", "toofar", "either", "far", []),
     ("{}NOP() : NOP()", ":", "operand", "expected", []),
     ("{}NOP() :fmt NOP()", ":fmt", "operand", "expected", []),
@@ -591,7 +627,10 @@ def location_oracle(f, text_lines_of=None):
         if line == f["line"]:
             ok_cols = []
             if f["kind"] in ("operand", "either"):
-                ok_cols += list(range(f["col"], f["col"] + len(f["token"])))
+                tok = f["token"]
+                if "/*" in tok:
+                    tok = tok[:tok.index("/*")] + " " * (tok.index("*/") + 2 - tok.index("/*")) + tok[tok.index("*/") + 2:]
+                ok_cols += [f["col"] + i for i, ch in enumerate(tok) if not ch.isspace()]
             if f["kind"] in ("name", "either"):
                 name_len = len(user_lines[line - 1][f["name_col"] - 1:].split("(")[0])
                 ok_cols += list(range(f["name_col"], f["name_col"] + name_len))
@@ -648,6 +687,16 @@ def gen_roundtrip_program(rng):
         s = "".join(rng.choice(STRING_CHARS) for _ in range(rng.choice([0, 1, 3, 6])))
         lit = "".join("\\x%02x" % ord(c) if (ord(c) < 32 or ord(c) > 126 or c in '"\\') else c for c in s)
         extra.append('%s("%s")' % (rng.choice(["LP_STRING", "TIGER_STRING"]), lit))
+    if rng.random() < 0.4:
+        # string data that looks like program syntax (comment brackets, directives), spelled raw or with escapes: it is
+        # data, in the original and in the printed form alike (seed C10h blanked /* ... */ regions inside strings)
+        for _ in range(rng.choice([1, 2])):
+            s = " ".join(rng.choice(["/*", "*/", "//", "/* x */", "*", "#", "#endif", "#ifdef X", "(", ")", ",", "a"])
+                         for _ in range(rng.choice([1, 2, 4])))
+            lit = "".join(rng.choice(["\\x%02x" % ord(c), "\\%03o" % ord(c)]) if rng.random() < 0.4 else c for c in s)
+            extra.append('%s("%s")' % (rng.choice(["LP_STRING", "TIGER_STRING"]), lit))
+            if rng.random() < 0.5:
+                extra.append("INTEGER(%d)" % rng.randrange(100))
     return "\n".join(extra + lines) + "\n"
 
 
